@@ -134,7 +134,7 @@ def section_of(world, relfile, line):
 
 
 def pick_programs(ctx, sp, tier):
-    pids = cw.select_programs(ctx, sp, tier, scale=0.7 if tier == "quick" else 1.0)
+    pids = cw.select_programs(ctx, sp, tier, scale=0.7 if tier == "quick" else 1.0, exclude_fams=("multi",))
     return pids
 
 
